@@ -548,6 +548,24 @@ class Sym:
             if isinstance(a, sp.MatrixBase):
                 return a.inv() * b
             return b / a
+        # Cholesky factorisation: which triangle is produced / consumed is part of the value (scipy: upper by default, numpy: lower)
+        if last == "cholesky" and len(args) == 1 and isinstance(args[0], sp.MatrixBase):
+            lower = kw.get("lower")
+            if lower is None:
+                d_ = dotted(n.func) or ""
+                lower = "linalg" in d_ and d_.split(".")[0] in ("np", "numpy")      # numpy.linalg.cholesky returns L, scipy.linalg.cholesky U
+            lower = bool(lower)
+            a = args[0]
+            # symbolic factor: opaque entries constrained only by L L^T = A would not reduce; use the closed form (generic SPD matrix)
+            L = a.cholesky(hermitian=False)
+            return L if lower else L.T
+        if last == "cho_solve" and len(args) == 2 and isinstance(args[0], tuple) and len(args[0]) == 2 and isinstance(args[0][0], sp.MatrixBase):
+            c, lower = args[0]
+            b = args[1]
+            lower = bool(lower)
+            t = c.lower_triangular() if lower else c.upper_triangular()       # only that triangle of the array is read
+            full = t * t.T if lower else t.T * t
+            return full.inv() * b
         if last in ("dot", "matmul") and len(args) == 2:
             return args[0] * args[1]
         if last == "transpose" and len(args) == 1:
